@@ -68,11 +68,29 @@ def make_cv(spec):
     if kind == "timeseries":           # growing training sets that never cover the rows after the test fold
         from sklearn.model_selection import TimeSeriesSplit
         return TimeSeriesSplit(n_splits=spec[1])
+    if kind == "overlap":              # test rows that were also used for fitting (resubstitution / bootstrap-style schemes): still scored, all of them
+        return _Overlap(spec[1], spec[2])
     if kind == "blockkfold":
         return vd.BlockKFold(shape=tuple(spec[4]), n_splits=spec[1], shuffle=spec[2], random_state=spec[3])
     if kind == "blockshuffle":
         return vd.BlockShuffleSplit(shape=tuple(spec[4]), n_splits=spec[1], test_size=spec[2], random_state=spec[3])
     raise ValueError(kind)
+
+
+class _Overlap:
+    """A cross-validator whose training and test rows overlap: fit on a with-replacement sample, test on every `step`-th row."""
+
+    def __init__(self, n_splits, step):
+        self.n_splits, self.step = n_splits, step
+
+    def get_n_splits(self, X=None, y=None, groups=None):
+        return self.n_splits
+
+    def split(self, X, y=None, groups=None):
+        n = len(X)
+        for k in range(self.n_splits):
+            train = np.unique(np.random.RandomState(100 + k).randint(0, n, size=n)) if k % 2 == 0 else np.arange(n)
+            yield train, np.arange(k % self.step, n, self.step)
 
 
 def splits_of(spec, es, ns):
@@ -150,6 +168,15 @@ def corpus():
     cs.append(mk_cv(coords, shape2d, data, weights, ["shuffle-partial", 3, 0.25, 5, 0.3], None, "moment", "corpus-partial-shuffle"))
     cs.append(mk_cv(coords, shape2d, data[:1], None, ["timeseries", 4], "neg_mean_squared_error", "trend", "corpus-timeseries"))
     cs.append(mk_cv(coords, shape2d, data, weights, ["timeseries", 3], "r2", "moment", "corpus-timeseries"))
+    cs.append(mk_cv(coords, shape2d, data, weights, ["overlap", 3, 2], "r2", "moment", "corpus-overlapping-train-test"))
+    cs.append(mk_cv(coords, shape2d, data[:1], None, ["overlap", 2, 1], None, "trend", "corpus-overlapping-train-test"))
+    cs.append(mk_cv(coords, shape2d, data[:1], None, ["overlap", 4, 3], "neg_mean_squared_error", "moment", "corpus-overlapping-train-test"))
+    # a test fold whose data are all equal (the default score is then 0 for an imperfect prediction, 1 for a perfect one - never infinite / NaN)
+    nc_ = len(coords[0])
+    flat = [[7.5 if k < (nc_ + 2) // 3 else v for k, v in enumerate(data[0])]]
+    cs.append(mk_cv(coords, shape2d, flat, None, ["kfold", 3, False, 0], None, "trend", "corpus-constant-test-fold"))
+    cs.append(mk_cv(coords, shape2d, flat, [weights[0]] if weights else None, ["kfold", 3, False, 0], None, "moment", "corpus-constant-test-fold"))
+    cs.append(mk_cv(coords, shape2d, [[4.0] * nc_], None, ["kfold", 3, True, 2], None, "trend", "corpus-constant-test-fold"))
     cs.append(mk_tts(coords, shape2d, data, weights, None, 0.25, 5, "corpus-tts"))
     n_ = len(coords[0])
     for sc in SCORERS:
